@@ -119,11 +119,24 @@ def api_level(ctx, thorough):
                 calls += ["call zone %d set_target_temperature %s" % (z, t) for t in ("20", "23.4")]
             calls.append("call at check_for_updates")
             hs = consolesim.handshake(gen, inst)
-            ops = hs + calls + ["conn 0", "conn 1"]
+            # what the client sends on its own initiative because of what the console REPORTS (an AC error appearing / changing makes it
+            # ask for the error text), not only at connection time
+            con = consolesim.Console(ctx.rng, gen, inst)
+            reports = []
+            for code in (5, 7, 0, 5):
+                for a in con.ac_ids:
+                    reports.append(con.ac_frame([dict(con.ac[a], err=code)]))
+            reports += [con.random_frame() for _ in range(12)]
+            ops = hs + reports + calls + ["conn 0", "conn 1"] + reports[:len(con.ac_ids)]
             api = apiharness.Api(gen)
-            with warnings.catch_warnings():
-                warnings.simplefilter("ignore")
-                api.run(ops)
+            import logging
+            logging.disable(logging.CRITICAL)          # the package logs every unknown entity of the random status frames
+            try:
+                with warnings.catch_warnings():
+                    warnings.simplefilter("ignore")
+                    api.run(ops)
+            finally:
+                logging.disable(logging.NOTSET)
             for idx, op in enumerate(ops):
                 for (msg, pol) in api.op_sent[idx]:
                     own = not op.startswith("call")
@@ -156,7 +169,7 @@ def api_level(ctx, thorough):
         ctx.violation(key, "AirTouch %d op `%s`: %s sent with retry policy (retries %s, lifetime %s s) but %s (expected retries %s, lifetime %s s)" % (
             gen, op, mname, pol.max_retries, pol.max_lifetime, why, want.max_retries, want.max_lifetime), kind="input", level="api", gen=gen, op=op,
             implementation_output=[pol.max_retries, pol.max_lifetime], spec_verdict=why)
-    ctx.coverage["rule"] += (" API level: every message the real AirTouch4 / AirTouch5 objects send during the handshake, after a reconnection and for every public "
+    ctx.coverage["rule"] += (" API level: every message the real AirTouch4 / AirTouch5 objects send during the handshake, after a reconnection, in reaction to status reports (AC errors appearing / changing / clearing, random status frames) and for every public "
                              "call with every enum argument, with the retry policy given to the socket; a command is accumulating iff the vendor reading of its "
                              "frame says toggle / change / next / increase / decrease.")
 
